@@ -168,6 +168,7 @@ namespace
             {
                 // ... beginning with a few hundred short command lines (more stored lines than an 8-bit counter counts)
                 int lines = (int)r.range(240, 560);
+                if (r.chance(1, 2)) p.cfg[1] = r.pick<int64_t>({130, 200, 255}); // a deep history: slot arithmetic beyond 128 / 256
                 for (int i = 0; i < lines; i++)
                 {
                     p.ops.push_back({K_PRINT, (int64_t)(i % 90), 0});
@@ -199,7 +200,7 @@ namespace
         }
         std::string describe(const Plan &p) override
         {
-            std::string s = "cap=" + std::to_string(mod(p.c(0) - 2, 400) + 2) + " hist=" + std::to_string(mod(p.c(1) - 1, 9) + 1) + " keys:";
+            std::string s = "cap=" + std::to_string(mod(p.c(0) - 2, 400) + 2) + " hist=" + std::to_string(p.c(1) >= 100 ? std::min<int64_t>(p.c(1), 255) : mod(p.c(1) - 1, 9) + 1) + " keys:";
             for (auto &o : p.ops)
             {
                 int k = (int)mod(arg(o, 0), K_N);
@@ -215,7 +216,8 @@ namespace
         Result execute(const Plan &p, Trace &tr) override
         {
             Result res;
-            size_t cap = (size_t)mod(p.c(0) - 2, 400) + 2, H = (size_t)mod(p.c(1) - 1, 9) + 1;
+            size_t cap = (size_t)mod(p.c(0) - 2, 400) + 2, H = p.c(1) >= 100 ? (size_t)std::min<int64_t>(p.c(1), 255) : (size_t)mod(p.c(1) - 1, 9) + 1;
+            if (H >= 100) probe("history_depth_over_128");
             std::unique_ptr<Term> term(xx ? make_term_xx() : make_term_c());
             Sink sink;
             sink.cap = cap;
